@@ -2,6 +2,6 @@
 # kj.sh <feature> <harness> [mem_gb] [timeout_s] [extra cargo-kani args...]: one Kani job, logged.
 f=$1; h=$2; mem=${3:-12}; to=${4:-900}; shift 4 2>/dev/null
 mkdir -p /verif/.build/logs
-log=/verif/.build/logs/$h.log
+log=/verif/.build/logs/$h.log; rm -f $log
 ( ulimit -v $((mem*1024*1024)); cd /verif/kani/h && CARGO_NET_OFFLINE=true timeout $to cargo kani --features $f --target-dir /verif/.build/$f -Z stubbing --harness $h --exact "$@" > $log 2>&1; echo "EXIT $?" >> $log )
 grep -aE "VERIFICATION|Verification Time|Failed Checks|^error|Runtime Symex|out of memory|EXIT|SATISFIED|UNSATISFIABLE|UNREACHABLE" $log | sort | uniq -c | head -30
